@@ -426,6 +426,10 @@ def move_candidates(tr, rnd):
     # large databases with the default configurations (a placement that turns deterministic above a size threshold)
     # N = 4192: levels 13, 8, 3; the 24 short lists go to level 3, which has 525 buckets (the two long lists only make N large)
     out.append(("DP17.Pi", -4, sc.default_config("DP17.Pi"), [8] * 24 + [2000, 2000]))
+    if tr == "thorough":
+        # every list short, N = 4160: ALL 520 chunks go to the 521 buckets of level 3 (the compact family above keeps two long
+        # lists, whose random placement alone makes the two runs differ); MC_Place needs about two minutes for it
+        out.append(("DP17.Pi", -5, sc.default_config("DP17.Pi"), [8] * 520))
     out.append(("CJJ14.PiPtr", -4, sc.default_config("CJJ14.PiPtr"), [100] * 170))
     out.append(("CJJ14.Pi2Lev", -4, sc.default_config("CJJ14.Pi2Lev"), [100] * 170))
     return out
